@@ -287,6 +287,15 @@ func (c *Ctx) ruleWriteShape() {
 							behind = true
 						}
 					}
+					if fc.key != nil {
+						// an entry of a constant table selected by the outcome of the append test
+						setWhenTrue, isTest := c.appendBitTest(fc.key)
+						if !isTest {
+							okF, detF = false, "cannot locate the origin of a flag value"
+							break
+						}
+						behind = behind || fc.keyVal == setWhenTrue
+					}
 					if fc.val&oA != 0 && !behind {
 						okF, detF = false, "O_APPEND chosen on a path not guarded by the APPEND_WRITE attribute"
 					}
